@@ -60,3 +60,28 @@ Fixpoint Qll_close_s (scale : Q) (a b : list (list Q)) : bool :=
   end.
 (* largest magnitude in a list, at least 1 *)
 Definition Qscale (l : list Q) : Q := fold_left (fun m x => Qmaxb m (Qabs x)) l 1%Q.
+
+Section VecOps2.
+  Context {K : Type} `{Num K} `{NumOrd K}.
+  (* elementwise ternary operation (np.clip with array bounds) *)
+  Fixpoint vmap3 (f : K -> K -> K -> K) (a b c : list K) : list K :=
+    match a, b, c with
+    | x :: a', y :: b', z :: c' => f x y z :: vmap3 f a' b' c'
+    | _, _, _ => []
+    end.
+  (* np.dot(M, v): matrix (list of rows) times vector *)
+  Definition matvec (M : list (list K)) (v : list K) : list K := map (fun row => dot row v) M.
+  (* np.dot(v, M): sum_i v_i * M[i, :]   (at least one row; [] for the empty matrix) *)
+  Fixpoint vecmat (v : list K) (M : list (list K)) : list K :=
+    match v, M with
+    | c :: v', row :: M' =>
+        match v', M' with
+        | [], _ | _, [] => map (nmul c) row
+        | _, _ => vmap2 nadd (map (nmul c) row) (vecmat v' M')
+        end
+    | _, _ => []
+    end.
+  (* elementwise operation of two matrices *)
+  Definition mmap2 (f : K -> K -> K) (A B : list (list K)) : list (list K) :=
+    map (fun p => vmap2 f (fst p) (snd p)) (combine A B).
+End VecOps2.
